@@ -97,3 +97,22 @@ module Conc = struct
 end
 
 let () = Conv.register "conc" Conc.run
+
+(* lockprog: "<fs> | <call>"  ->  the acquire/release sequence of the table of Conc/LockProg.v *)
+module LockProgDrv = struct
+  open Model
+  let show_op = function
+    | LAcq (l, w) -> "A" ^ (if w then "W" else "R") ^ string_of_int (int_of_nat l)
+    | LRel (l, w) -> "r" ^ (if w then "W" else "R") ^ string_of_int (int_of_nat l)
+  let run () =
+    iter_lines (fun line ->
+      match Conc.split_on " | " line with
+      | [fs; call] ->
+          let key = fs ^ " " ^ String.concat " " (split_ws call) in
+          (match lockprog_lookup (str_of_string key) with
+           | Some p -> print_endline (String.concat " " (List.map show_op p))
+           | None -> print_endline "not-in-table")
+      | _ -> print_endline "BADLINE")
+end
+
+let () = Conv.register "lockprog" LockProgDrv.run
